@@ -52,6 +52,34 @@ CLAIMS = {
          'Spec cursor machine).',
     technique='Coq proof (positions: corollary of refinement) + differential run with cursor-machine oracle for seeks',
     ref='5 C05'),
+ 'C07': dict(
+    text='Theorems of C07.v (12) over the transition-system model Par.v of read_parallel_init (threads, two bounded channels, job pool; one step per '
+         'channel/closure/pool operation), for ALL thread counts >= 1, queue lengths >= 1, fill scripts, consumers and ALL schedules (induction over runs): content '
+         'and token conservation (C07_inv), out = work(content) (C07_pairing), at most once, exactly once for a draining consumer, file order with one worker, '
+         'end marker only after all jobs; per-record zips (C07_work_zip: old vector shorter/equal/longer). Tie: the TEXT of /repo/src/parallel.rs runs on '
+         'shuttle shims under seeded random/PCT schedules and every event log must be a trace of the model (Par.accepts, extracted); black-box runs of the real '
+         'functions (real threads) check every record arrives once with its own output.',
+    technique='Coq invariant proofs over a protocol model (all schedules) + trace acceptance of shuttle-scheduled runs of the real source text + black-box runs',
+    ref='5 C07'),
+ 'C08': dict(
+    text='Theorems of C08.v (7): no reachable non-final state of the protocol model is without an enabled step (C08_progress: no deadlock for any consumer '
+         'behaviour, reader error, init failure), every step decreases a measure (C08_measure: every schedule is finite, no fairness needed), final states are '
+         'clean, the recycle send never blocks. PARTIAL for the runtime part: that OS threads exit and blocked channel operations wake is a property of the '
+         'primitives (trusted; exercised by black-box runs under a 20 s watchdog and by shuttle, which reports deadlocks deterministically).',
+    technique='Coq progress + termination-measure proofs over the protocol model + shuttle deadlock detection on the real source text + watchdogged black-box runs',
+    ref='5 C08'),
+ 'C15': dict(
+    text='Theorems of C15.v (9): the reader error is enqueued at most once and only after exactly e successful fills, nothing past it is filled, a draining consumer '
+         'sees it exactly once after all earlier sets; init-closure failures end the run with Err (no hang, no panic); reader_init failure -> recv sees Closed -> None. '
+         'Equality with the sequential parse error is checked by the black-box runs (the model carries no error value).',
+    technique='Coq invariant proofs over the protocol model + trace acceptance + black-box comparison with the sequential reader',
+    ref='5 C15'),
+ 'C16': dict(
+    text='Theorems of C16.v (5): at most queue_len + 1 data sets are ever created, token conservation (every set is in exactly one place), the reader is never more '
+         'than queue_len sets ahead, every fill reuses a created set; for all input lengths, thread counts, queue lengths and schedules. Tie: trace acceptance; '
+         'black-box counts of dataset_init calls, fill-minus-consumed, and RecordSet buffer capacities.',
+    technique='Coq invariant proofs over the protocol model + trace acceptance + black-box counters',
+    ref='5 C16'),
  'C10': dict(
     text='Theorems of C10.v (19): every FASTA writer entry point round-trips through fa_spec for all headers without LF / trailing CR and all '
          'sequences without LF, CR, ">" (C10_roundtrip_*, C10_many with coordinates), wrapped lines have width w except the last '
